@@ -237,9 +237,10 @@ const (
 	slotRespB
 )
 
-var slotNames = []string{"Output", "RequestOutput", "ResponseOutput", "RequestHeaderOutput", "RequestBodyOutput", "ResponseHeaderOutput", "ResponseBodyOutput", "AbandonedOutput(of an earlier EnableDumpAllTo)"}
+var slotNames = []string{"Output", "RequestOutput", "ResponseOutput", "RequestHeaderOutput", "RequestBodyOutput", "ResponseHeaderOutput", "ResponseBodyOutput", "AbandonedOutput(of an earlier EnableDumpAllTo)", "RedirectedOutput(of a later EnableDumpAllTo)"}
 
 const slotAbandoned = 7
+const slotRedirected = 8
 
 type sink struct {
 	firstDone bool
@@ -307,6 +308,7 @@ type optSpec struct {
 	Fail      bool    `json:"failing_writers,omitempty"`  // every writer of this dumper reports an error
 	Slow      bool    `json:"slow_writers,omitempty"`     // every writer of this dumper blocks for a moment
 	SlowFirst bool    `json:"slow_first_write,omitempty"` // the first write of the run blocks 150 ms
+	OutID     int     `json:"output_writer_id,omitempty"` // Output is this writer (a later EnableDumpAllTo) instead of the level's own
 }
 
 func writerID(level, slot int) int { return 10 + 10*level + slot }
@@ -318,7 +320,11 @@ func (o optSpec) build(level int, s *sink) *req.DumpOptions {
 		if !o.Set[slot] {
 			return nil
 		}
-		return &tagW{s: s, d: level, id: writerID(level, slot), fail: o.Fail, slow: o.Slow, slowFirst: o.SlowFirst}
+		id := writerID(level, slot)
+		if slot == slotOut && o.OutID != 0 {
+			id = o.OutID
+		}
+		return &tagW{s: s, d: level, id: id, fail: o.Fail, slow: o.Slow, slowFirst: o.SlowFirst}
 	}
 	d := &req.DumpOptions{RequestHeader: o.On[0], RequestBody: o.On[1], ResponseHeader: o.On[2], ResponseBody: o.On[3], Async: o.Async}
 	// assign only non-nil (a typed nil *tagW in an io.Writer would not be == nil)
@@ -349,7 +355,9 @@ func (o optSpec) build(level int, s *sink) *req.DumpOptions {
 func (o optSpec) coq(level int) string {
 	var f []string
 	for slot := 0; slot < 7; slot++ {
-		if o.Set[slot] {
+		if slot == slotOut && o.Set[slot] && o.OutID != 0 {
+			f = append(f, fmt.Sprintf("(Some %d%%N)", o.OutID))
+		} else if o.Set[slot] {
 			f = append(f, fmt.Sprintf("(Some %d%%N)", writerID(level, slot)))
 		} else {
 			f = append(f, "None")
@@ -378,6 +386,9 @@ func (o optSpec) route(level, part int) int {
 }
 
 func (o optSpec) outID(level int) int {
+	if o.Set[slotOut] && o.OutID != 0 {
+		return o.OutID
+	}
 	if o.Set[slotOut] {
 		return writerID(level, slotOut)
 	}
@@ -442,9 +453,18 @@ type dumpCfg struct {
 	// DisableDumpAll(), SetCommonDumpOptions(o).EnableDumpAll().  In every case o is in force and nothing may
 	// reach the abandoned writer.
 	ClientHist string `json:"client_history,omitempty"`
+	// ClientBase: the options handed to SetCommonDumpOptions / EnableDump; ClientTail: client-level setters
+	// called afterwards, in order (nobody | noheader | noresponse | norequest | noreqbody | norespbody =
+	// EnableDumpAllWithoutXxx, to = EnableDumpAllTo(another writer)).  Client = what must be in force: the
+	// tail applied to the base when the running dumper reads the client's own options (every history
+	// except the Transport-level ones, whose dumper has options of its own).
+	ClientBase *optSpec `json:"client_base_options,omitempty"`
+	ClientTail []string `json:"client_later_setters,omitempty"`
 }
 
-var clientHists = []string{"", "", "transport", "stale+transport", "running+transport", "stale+setters"}
+var clientHists = []string{"", "", "transport", "stale+transport", "running+transport", "stale+setters", "running+setcommon", "running+setcommon"}
+
+func histLinked(h string) bool { return h == "" || h == "stale+setters" || h == "running+setcommon" }
 
 // applyClientHist makes the client-level calls
 func applyClientHist(c *req.Client, cfg *dumpCfg, s *sink) {
@@ -452,7 +472,31 @@ func applyClientHist(c *req.Client, cfg *dumpCfg, s *sink) {
 		return
 	}
 	old := &tagW{s: s, d: 0, id: writerID(0, slotAbandoned)}
-	o := cfg.Client.build(0, s)
+	base := cfg.Client
+	if cfg.ClientBase != nil {
+		base = cfg.ClientBase
+	}
+	o := base.build(0, s)
+	defer func() {
+		for _, t := range cfg.ClientTail {
+			switch t {
+			case "to":
+				c.EnableDumpAllTo(&tagW{s: s, d: 0, id: writerID(0, slotRedirected)})
+			case "nobody":
+				c.EnableDumpAllWithoutBody()
+			case "noheader":
+				c.EnableDumpAllWithoutHeader()
+			case "noresponse":
+				c.EnableDumpAllWithoutResponse()
+			case "norequest":
+				c.EnableDumpAllWithoutRequest()
+			case "noreqbody":
+				c.EnableDumpAllWithoutRequestBody()
+			case "norespbody":
+				c.EnableDumpAllWithoutResponseBody()
+			}
+		}
+	}()
 	switch cfg.ClientHist {
 	case "transport":
 		c.EnableDump(o)
@@ -467,13 +511,35 @@ func applyClientHist(c *req.Client, cfg *dumpCfg, s *sink) {
 		c.EnableDumpAllTo(old)
 		c.DisableDumpAll()
 		c.SetCommonDumpOptions(o).EnableDumpAll()
+	case "running+setcommon": // dump already enabled, then SetCommonDumpOptions: the running dumper is re-pointed
+		c.EnableDumpAllTo(old)
+		c.SetCommonDumpOptions(o)
 	default:
 		c.SetCommonDumpOptions(o).EnableDumpAll()
 	}
 }
 
+var coqParts = map[string]string{"nobody": "[PReqB; PRespB]", "noheader": "[PReqH; PRespH]", "noresponse": "[PRespH; PRespB]", "norequest": "[PReqH; PReqB]", "noreqbody": "[PReqB]", "norespbody": "[PRespB]"}
+
 func coqClientOps(cfg dumpCfg) string {
-	o := cfg.Client.coq(0)
+	ops := coqClientBaseOps(cfg)
+	ops = ops[:len(ops)-1]
+	for _, t := range cfg.ClientTail {
+		if t == "to" {
+			ops += fmt.Sprintf("; CEnableAllTo %d%%N", writerID(0, slotRedirected))
+		} else {
+			ops += "; CWithout " + coqParts[t]
+		}
+	}
+	return ops + "]"
+}
+
+func coqClientBaseOps(cfg dumpCfg) string {
+	base := cfg.Client
+	if cfg.ClientBase != nil {
+		base = cfg.ClientBase
+	}
+	o := base.coq(0)
 	old := fmt.Sprintf("%d%%N", writerID(0, slotAbandoned))
 	switch cfg.ClientHist {
 	case "transport":
@@ -484,6 +550,8 @@ func coqClientOps(cfg dumpCfg) string {
 		return "[CEnableAllTo " + old + "; CTransportEnable " + o + "]"
 	case "stale+setters":
 		return "[CEnableAllTo " + old + "; CDisableAll; CSetCommon " + o + "; CEnableAll]"
+	case "running+setcommon":
+		return "[CEnableAllTo " + old + "; CSetCommon " + o + "]"
 	}
 	return "[CSetCommon " + o + "; CEnableAll]"
 }
@@ -628,6 +696,29 @@ func (c *dumpCfg) pickHist(rng *hk.Rand, r *hk.Run) {
 		c.ClientHist = hk.Pick(rng, clientHists)
 		if c.ClientHist != "" {
 			r.Count("client-level dump history=" + c.ClientHist)
+		}
+		// client-level setters called after the dump in force was installed
+		if rng.Chance(40) {
+			base := *c.Client
+			c.ClientBase = &base
+			eff := base
+			n := rng.Range(1, 2)
+			for i := 0; i < n; i++ {
+				t := hk.Pick(rng, []string{"to", "nobody", "noheader", "noresponse", "norequest", "noreqbody", "norespbody"})
+				c.ClientTail = append(c.ClientTail, t)
+				if !histLinked(c.ClientHist) {
+					continue // the dumper installed through the Transport has options of its own
+				}
+				if t == "to" {
+					eff.OutID = writerID(0, slotRedirected)
+				} else {
+					for _, p := range offOps[t] {
+						eff.On[p] = false
+					}
+				}
+			}
+			c.Client = &eff
+			r.Count(fmt.Sprintf("client-level setters after the dump was installed (reach the dumper=%v)", histLinked(c.ClientHist)))
 		}
 	}
 }
